@@ -57,6 +57,7 @@ def check_b1(ctx) -> None:
     ok = a in (['0', 'plantlifetime', '1'], ['0', 'plantlifetime'], ['plantlifetime'])
     ctx.check(ok, 'B1', 'BuildPricingModel/year-range', f'{rel}:{lp.lineno}', f'price years run over range({", ".join(a)}); expected [0, lifetime)',
               fact='[0, L)')
+    ctx.local_anchor(f, 'Price')
     init = [s for s in f.node.body if isinstance(s, ast.Assign) and norm(s.targets[0]) == 'Price']
     ctx.check(len(init) == 1 and norm(init[0].value) in ('[0.0] * plantlifetime', 'plantlifetime * [0.0]'), 'B1', 'BuildPricingModel/length',
               f'{rel}:{init[0].lineno if init else lp.lineno}', 'price series is not lifetime long')
